@@ -28,7 +28,7 @@ COMPONENTS = {"real": ["ECAgent.Batching.batch_run", "_run_model_for_batch", "_b
                        "multiprocessing.Pool (real-pool arm only, schedule not controlled)"],
               "stub": ["multiprocessing.Pool -> simkit.simpool.SimPool (discrete-event pool, pickle boundary kept)",
                        "models/systems/collectors are harness workloads (props/workloads.py)"]}
-PROBES = ["failure_right_after_complete", "executions_running_batches_of_their_own", "collectors_rebinding_their_records", "collectors_falsy_while_empty", "parameter_named_like_a_batching_argument", "error_surfaced_while_other_workers_busy", "completion_reordered", "all_results_from_one_worker", "tie_in_finish_times", "fail_first", "fail_last",
+PROBES = ["single_value_declared_after_a_collection", "failure_right_after_complete", "executions_running_batches_of_their_own", "collectors_rebinding_their_records", "collectors_falsy_while_empty", "parameter_named_like_a_batching_argument", "error_surfaced_while_other_workers_busy", "completion_reordered", "all_results_from_one_worker", "tie_in_finish_times", "fail_first", "fail_last",
           "max_ts_at_completion", "max_ts_below_completion", "max_ts_zero", "reps_single_combination",
           "collectors_none", "collectors_empty_list", "collectors_invalid", "parameterlist_input", "serial_order_checked",
           "second_batch_same_process", "parameterlist_reused_edit_returned", "parameterlist_reused_grid_search_first", "sibling_parameterlist_edited",
@@ -245,7 +245,14 @@ def check_ledger(ctx, sc, E_sigs, expect_complete=True):
     ctx.check(sorted(e["sig"] for e in led) == sorted(E_sigs), "exactly-once",
               lambda: f"executions {sorted(e['sig'] for e in led)} != product x repetitions {sorted(E_sigs)}")
     max_ts = sc["max_ts"]
+    declared = [g[0] for g in sc["grid"]]
+    kinds_ = [s_["kind"] in ("scalar", "str", "lookupgen") for _, s_ in sc["grid"]]
+    if any(single and not all(kinds_[:i]) for i, single in enumerate(kinds_)):
+        ctx.probe("single_value_declared_after_a_collection")
     for e in led:
+        # the execution IS model_cls(**combination): a model taking **kwargs receives the names as they were declared (PEP 468)
+        ctx.check(e.get("kworder", declared) == declared, "built-from-another-combination",
+                  lambda: f"{e['sig']}: the model was constructed with keywords {e.get('kworder')}, declared order {declared}")
         done = False
         for name, t, running in e["ticks"]:
             ctx.check(not done and running, "ran-after-completion", f"{e['sig']}: {name} ran at t={t} after completion")
